@@ -742,7 +742,67 @@ func (e *Engine) mnemonicTableObligations() []*Obligation {
 		ob3.Output = strings.Join(dups, "; ")
 		ob3.Src += " -- " + ob3.Output
 	}
-	return []*Obligation{ob, ob2, ob3}
+	// every reader and every registration of a type or class mnemonic goes through strings.ToUpper: keyword case
+	// does not matter in a zone file (RFC 1035 5.1), and what a private type registers can be read back
+	var raw []string
+	sites := 0
+	for _, n := range names {
+		fn := e.funcs[n]
+		if fn == nil || fn.Pkg == nil || fn.Pkg.Pkg.Path() != dnsPath || strings.HasPrefix(n, "init") || n == "(Class).String" {
+			continue
+		}
+		for _, b := range fn.Blocks {
+			for _, in := range b.Instrs {
+				var m, key ssa.Value
+				switch x := in.(type) {
+				case *ssa.Lookup:
+					m, key = x.X, x.Index
+				case *ssa.MapUpdate:
+					m, key = x.Map, x.Key
+				default:
+					continue
+				}
+				ld, ok := m.(*ssa.UnOp)
+				if !ok {
+					continue
+				}
+				g, ok := ld.X.(*ssa.Global)
+				if !ok || (g.Name() != "StringToType" && g.Name() != "StringToClass") {
+					continue
+				}
+				sites++
+				folded := false
+				if c, ok := key.(*ssa.Call); ok {
+					if cal := c.Call.StaticCallee(); cal != nil && cal.Name() == "ToUpper" && cal.Pkg != nil && cal.Pkg.Pkg.Path() == "strings" {
+						folded = true
+					}
+				}
+				if kc, ok := key.(*ssa.Const); ok && kc.Value != nil && kc.Value.Kind() == constant.String {
+					if v := constant.StringVal(kc.Value); v == strings.ToUpper(v) {
+						folded = true
+					}
+				}
+				if !folded {
+					raw = append(raw, fmt.Sprintf("%s uses %s with a key that is not the result of strings.ToUpper at line %d", n, g.Name(), e.fset.Position(in.Pos()).Line))
+				}
+			}
+		}
+	}
+	ob4 := &Obligation{Fn: "(Type).String", Name: "(Type).String#mnemonics.folded", Kind: "layout", Solver: "structural matcher (SSA data flow)"}
+	ob4.Src = fmt.Sprintf("every lookup in and every registration into StringToType / StringToClass uses an upper-cased key (%d sites)", sites)
+	ob4.Clause = &Clause{Label: "mnemonics.folded", Src: ob4.Src}
+	ob4.Pos = ob.Pos
+	if sites < 8 {
+		ob4.Status = "failed"
+		ob4.Src += " -- fewer sites found than the package has; the matcher no longer recognises the lookups"
+	} else if len(raw) == 0 {
+		ob4.Status = "proved"
+	} else {
+		ob4.Status = "failed"
+		ob4.Output = strings.Join(raw, "; ")
+		ob4.Src += " -- " + ob4.Output
+	}
+	return []*Obligation{ob, ob2, ob3, ob4}
 }
 
 // mapLiteralEntries: the constant key/value pairs that the package initialiser stores into the package-level map
